@@ -57,6 +57,7 @@ type Peer struct {
 	Dup        map[string]bool   `json:"dup,omitempty"`
 	Answers    map[string]string `json:"answers,omitempty"`
 	BlockSizes []int             `json:"block_sizes"`
+	Late       int               `json:"late,omitempty"` // the last Late peer queue entries arrive (become available) after the peer's first FF
 	PreBlock   []string          `json:"pre_block,omitempty"`
 	MidBlock   []string          `json:"mid_block,omitempty"`
 	PreFS      []string          `json:"pre_fs,omitempty"`
@@ -149,7 +150,7 @@ func Run(c Case) (sig, msg string, oc Outcome) {
 
 	pc := b2f.Config{Master: c.Peer.Master, Call: c.Peer.Call, Locator: c.Peer.Locator, SID: c.Peer.SID, FW: c.Peer.FW, MOTD: c.Peer.MOTD,
 		Challenge: challenge, Prompt: c.Peer.Prompt, Dup: c.Peer.Dup, Answers: c.Peer.Answers, BlockSizes: c.Peer.BlockSizes,
-		PreBlock: c.Peer.PreBlock, MidBlock: c.Peer.MidBlock, PreFS: c.Peer.PreFS, EarlyFQ: c.Peer.EarlyFQ, HoldIsAccept: c.Peer.HoldIsAccept, Gzip: c.Peer.Gzip, Exp: exp}
+		PreBlock: c.Peer.PreBlock, MidBlock: c.Peer.MidBlock, PreFS: c.Peer.PreFS, EarlyFQ: c.Peer.EarlyFQ, HoldIsAccept: c.Peer.HoldIsAccept, Gzip: c.Peer.Gzip, Late: c.Peer.Late, Exp: exp}
 	peerBytes := map[string][]byte{}
 	for _, spec := range c.Peer.Queue {
 		m, err := spec.Build()
@@ -296,7 +297,17 @@ func Run(c Case) (sig, msg string, oc Outcome) {
 	}
 	// peer -> library
 	var pAcc []string
+	never := map[string]bool{}
+	for _, m := range pres.NeverOffered {
+		never[m] = true
+	}
 	for _, spec := range c.Peer.Queue {
+		if never[spec.MID] {
+			if len(box.Inbox[spec.MID]) != 0 {
+				return "outcome-refused-was-delivered", fmt.Sprintf("%s was never offered but delivered", spec.MID), oc
+			}
+			continue
+		}
 		pol := c.Lib.Policy[spec.MID]
 		if c.Lib.NoHandler {
 			pol = "="
@@ -400,7 +411,8 @@ func GenCase(t *rapid.T) Case {
 	}
 	// peer SID
 	author := rapid.StringMatching(`[A-Za-z][A-Za-z0-9 ]{0,9}[A-Za-z0-9]`).Draw(t, "sid_author")
-	ver := rapid.StringMatching(`[0-9][0-9.]{0,7}`).Draw(t, "sid_ver")
+	// versions carry letters in the wild ("FBB-7.00i", "1.0b2"): including the letters that are feature codes
+	ver := rapid.StringMatching(`[0-9][0-9.]{0,5}([a-z]|[A-Z]|b2|B2|g|G|B1F){0,2}`).Draw(t, "sid_ver")
 	feats := rapid.SliceOfNDistinct(rapid.SampledFrom([]string{"A", "F", "H", "I", "J", "M", "W", "X", "B1"}), 0, 6, func(s string) string { return s }).Draw(t, "sid_feats")
 	pos := rapid.IntRange(0, len(feats)).Draw(t, "b2pos")
 	fl := append(append(append([]string{}, feats[:pos]...), "B2"), feats[pos:]...)
@@ -444,6 +456,9 @@ func GenCase(t *rapid.T) Case {
 	np := rapid.SampledFrom([]int{0, 1, 2, 3, 5, 6, 7}).Draw(t, "npeer")
 	for i := 0; i < np; i++ {
 		c.Peer.Queue = append(c.Peer.Queue, msggen.Gen(t, used, c.Peer.Call, c.Lib.Call, 3000))
+	}
+	if np > 0 && rapid.IntRange(0, 3).Draw(t, "late") == 0 {
+		c.Peer.Late = rapid.IntRange(1, np).Draw(t, "n_late")
 	}
 	var libMids, peerMids []string
 	for _, q := range c.Lib.Queue {
